@@ -272,7 +272,7 @@ class IPTW:
                           "model", UserWarning)
 
         self._miss_model = self._missing_indicator + ' ~ ' + model_denominator
-        fitmodel = propensity_score(self.df, self._miss_model, print_results=print_results)
+        fitmodel = propensity_score(self.df, self._miss_model, weights=self._weight_, print_results=print_results)
 
         if stabilized:
             if model_numerator is None:
